@@ -116,7 +116,10 @@ class C17(Prop):
                                clean=clean, p_break=0.04 if rng.random() < 0.12 else 0.0,
                                share=0.0 if clean else 0.1)
             names, st = self._names(rng, spec)
+            seed = rng.randrange(1 << 30) if rng.random() < 0.4 else None
             for c in self._split(spec, names, st):
+                if seed is not None:
+                    c = dict(c, build_seed=seed)   # attach-then-populate order, queries in between
                 yield c
                 out += 1
                 if out >= n:
@@ -147,7 +150,7 @@ class C17(Prop):
 
     # ---- implementation ----------------------------------------------------
     def run_impl(self, case):
-        coll, st = ns.build_and_dump(case["script"])
+        coll, st = ns.build_and_dump(case["script"], ns.Builder(build_seed=case.get("build_seed")))
         obs = []
         if coll is not None:
             for nm in case["names"]:
